@@ -5,7 +5,7 @@
    Only statements + `exact` of lemmas proved in Lower/Opt2*.v, each followed by Print Assumptions. *)
 From Coq Require Import List ZArith Bool.
 Import ListNotations.
-From DDP Require Import Lower.Opt2 Lower.Opt2Base Lower.Opt2Copy Lower.Opt2CopyThms Lower.Opt2Witness Lower.Opt2Safe Lower.Opt2ElideThm.
+From DDP Require Import Lower.Opt2 Lower.Opt2Base Lower.Opt2Copy Lower.Opt2CopyThms Lower.Opt2Witness Lower.Opt2Safe Lower.Opt2Cons Lower.Opt2ElideThm Lower.Opt2Full.
 
 (* copy_noninterference.  Sep X st: every variable that holds a Text/list holds a live buffer no
    other variable, temporary or other holder (X) shares.  Executing ANY single statement in copy
@@ -90,15 +90,29 @@ Theorem C08_former_witnesses_repaired :
 Proof. exact former_witnesses_agree. Qed.
 Print Assumptions C08_former_witnesses_repaired.
 
-(* elision_sound_partial (the full statement `forall fuel p, run_elide fuel p = run_copy fuel p` for the repaired
-   elision is NOT proved: it needs the consistency of `analyse`'s table for every program, which is checked per
-   program here).  `elide_safe p` (Lower/Opt2Safe.v, a boolean computed from the program and
-   the analysis table) says: the table is consistent (no parameter judged constant is assigned, used
-   as a destination, or passed by Referenz to a parameter that may be written), declarations do not
-   shadow parameters or globals, and at every call no elided argument `x` can be the storage of a
-   Referenz argument of the same call that the callee may write, nor a global the callee (or its
-   callees) may write, nor itself a Referenz parameter of the caller.  Under it the -O2 elision does
-   not change the behaviour, for every program and every fuel. *)
+(* elision_sound (FULL, no hypothesis).  For the repaired compiler (91b5d4a) the -O 2 parameter-copy elision never
+   changes the behaviour: for every program and every fuel the run with elision equals the run in which every value
+   parameter is a fresh copy.  Ingredients (Lower/Opt2Cons.v, Opt2Fbase.v, Opt2Full.v): the table of `analyse` is
+   consistent for every program (below); no operation changes the frame base; and the predicate the compiler
+   evaluates at each call site (`may_elide`: the argument is a variable of the running activation that is not also
+   passed by Referenz in the call) establishes dynamically that no borrowed buffer can be reached by anything the
+   callee may write (lemma callee_Ainv) - the role the static side condition `elide_safe` played before. *)
+Theorem C08_elision_sound :
+  forall fuel p, run_elide fuel p = run_copy fuel p.
+Proof. exact elision_sound. Qed.
+Print Assumptions C08_elision_sound.
+
+(* the analysis (const_func_param.go with the recursive-call rule) is consistent for EVERY program: in the body of
+   function j no statement assigns, uses as call destination, or passes by Referenz to a parameter position not
+   judged constant, a name that the table of j judges a constant parameter *)
+Theorem C08_analyse_consistent :
+  forall funs j, j < length funs ->
+    all_stmts (stmt_cons_b (analyse funs) funs (Some j)) (fbody (fn funs j)) = true.
+Proof. exact analyse_consistent. Qed.
+Print Assumptions C08_analyse_consistent.
+
+(* the earlier, weaker statement (kept: it was the claim while the elision was still broken in /repo and is what
+   the simulation needs from a purely STATIC point of view) *)
 Theorem C08_elision_sound_partial :
   forall fuel p, elide_safe p = true -> run_elide fuel p = run_copy fuel p.
 Proof. exact elision_sound_partial. Qed.
